@@ -48,20 +48,22 @@ class PureFunction(object):
         # what the object holds right now is what has to be put back: another
         # wrapper of the same object may have substituted its tensors since this
         # wrapper last looked, so the remembered list cannot be trusted
-        cur_objparams = self._uniq.get_unique_objs(self._get_all_obj_params_init())
+        # (kept per name, not per unique tensor: which names share a tensor may
+        # also have changed since this wrapper was made)
+        cur_allobjparams = self._get_all_obj_params_init()
+        cur_objparams = self._uniq.get_unique_objs(cur_allobjparams)
         identical = _check_identical_objs(objparams, cur_objparams)
-        self._restore_stack.append((cur_objparams, identical))
+        self._restore_stack.append((cur_allobjparams, identical))
         if not identical:
             allobjparams = self._uniq.map_unique_objs(objparams)
             self._set_all_obj_params(allobjparams)
             self._cur_objparams = list(objparams)
 
     def restore_objparams(self):
-        old_objparams, identical = self._restore_stack.pop(-1)
+        old_allobjparams, identical = self._restore_stack.pop(-1)
         if not identical:
-            allobjparams = self._uniq.map_unique_objs(old_objparams)
-            self._set_all_obj_params(allobjparams)
-            self._cur_objparams = old_objparams
+            self._set_all_obj_params(old_allobjparams)
+            self._cur_objparams = self._uniq.get_unique_objs(old_allobjparams)
 
     @contextmanager
     def useobjparams(self, objparams: List):
